@@ -27,7 +27,10 @@ def synthetic(draw, tier):
     if draw(st.booleans()):
         lo, hi = 0, N - 1
     v = st.integers(lo, hi)
-    rows = draw(st.lists(st.tuples(v, v, st.sampled_from(G.NAME_POOL), st.integers(0, 6)), max_size=15))
+    # topology names are arbitrary labels: strings, ints, None, values that print alike (2 and "2"), and objects that
+    # compare by identity (encoded as {"obj": k}; one instance per k and case)
+    pool = G.NAME_POOL + [2, "2", None, "None", 0, "0", {"obj": 1}, {"obj": 2}]
+    rows = draw(st.lists(st.tuples(v, v, st.sampled_from(pool), st.integers(0, 6)), max_size=15))
     return {"synthetic": True, "N": N, "jds": jds, "rows": [list(r) for r in rows]}
 
 
@@ -46,7 +49,7 @@ ENUM_CHUNK = 1
 
 
 def snapshot(Gx):
-    cp = copy.deepcopy if Gx.number_of_edges() < 20000 else dict  # attribute values are immutable scalars / tuples
+    cp = dict  # shallow: attribute values are immutable scalars / tuples, or labels that compare by identity
     return ({n: cp(d) for n, d in Gx.nodes(data=True)},
             {frozenset((u, v)): cp(d) for u, v, d in Gx.edges(data=True)})
 
@@ -58,7 +61,16 @@ def check(case):
         jds = [tuple(r) for r in case["jds"]]
         el.joint_degrees = list(jds)
         el.edge_list = [(a, b) for a, b, _, _ in case["rows"]]
-        el.topologies = [n for _, _, n, _ in case["rows"]]
+        objs = {}
+
+        class Label:  # compares and hashes by identity
+            def __init__(self, k):
+                self.k = k
+
+            def __repr__(self):
+                return f"<Label {self.k}>"
+        nm = lambda n: objs.setdefault(n["obj"], Label(n["obj"])) if isinstance(n, dict) else n
+        el.topologies = [nm(n) for _, _, n, _ in case["rows"]]
         el.motif_id = [i for _, _, _, i in case["rows"]]
         classes = {"synthetic"}
     else:
